@@ -110,6 +110,8 @@ impl Database {
             if !self.config.lock().unwrap().disable_optimizer {
                 plan = optimizer.optimize(plan);
             }
+            #[cfg(feature = "verif")]
+            crate::verif::point("run.planned").await;
             let executor = match self.storage.clone() {
                 StorageImpl::InMemoryStorage(s) => {
                     crate::executor::build(optimizer.clone(), s, &plan)
